@@ -129,6 +129,7 @@ namespace {
 
 #ifdef DANMAR_CPPCHECK_VERIF
         // verification hook (fault injection): VERIF_CHILD_FAULT=<file-substring>:<k>:<sig|exit|midmsg>
+        // (further modes sighold|exithold: like sig|exit, with the pipe kept open by a grandchild)
         // The worker analysing a matching file dies when it is about to send its (k+1)-th finding
         // (severity != internal), or before its CHILD_END record if it has at most k findings:
         // sig = raise SIGSEGV, exit = _exit(3), midmsg = write the type byte and half of the length, then _exit(3).
@@ -153,6 +154,17 @@ namespace {
                 return;
             if (!atEnd && mVerifSent++ < mVerifAfter)
                 return;
+            if (mVerifMode == "sighold" || mVerifMode == "exithold") {
+                // a process started by the worker keeps the write end of the pipe open for 1.5 s after
+                // the worker's death, so the parent reaps the worker before it sees end-of-file
+                if (fork() == 0) {
+                    usleep(1500000);
+                    _exit(0);
+                }
+                if (mVerifMode == "sighold")
+                    std::raise(SIGSEGV);
+                _exit(3);
+            }
             if (mVerifMode == "sig")
                 std::raise(SIGSEGV);
             else if (mVerifMode == "exit")
